@@ -874,4 +874,13 @@ void run_csr(const Ctx& c) {
 extern "C" const char* __asan_default_options() { return "abort_on_error=1:detect_leaks=0"; }
 extern "C" const char* __ubsan_default_options() { return "abort_on_error=1"; }
 
-VERIF_INPROC_MAIN(galois::SharedMemSys G)
+// two synthetic sockets of eight threads unless the caller chose a topology
+namespace c11 {
+struct Init {
+  struct Env {
+    Env() { setenv("GALOIS_VERIF_TOPO", "8,8", 0); }
+  } env;
+  galois::SharedMemSys G;
+};
+} // namespace c11
+VERIF_INPROC_MAIN(c11::Init g_c11_init)
